@@ -21,7 +21,7 @@ func VerifC08NewClient(id string) *VerifC08Client {
 		id:         id,
 		actions:    unbounded.New[any](),
 		done:       make(chan struct{}),
-		writeCh:    make(chan interface{}, 1000),
+		writeCh:    make(chan interface{}, 100), // as StartClient
 		writerDone: make(chan struct{}),
 	}}
 }
@@ -39,6 +39,12 @@ func (v *VerifC08Client) Leave(groupname string) error {
 	return handleClientMessage(v.C, clientMessage{
 		Type: "join", Kind: "leave", Group: groupname,
 	})
+}
+
+// Init installs a username and a permission slice exactly as group.AddClient
+// does after a successful login.
+func (v *VerifC08Client) Init(username string, perms []string) {
+	v.C.Init(username, perms)
 }
 
 // ChangePermissions applies the action an operator's useraction enqueues.
